@@ -199,6 +199,20 @@ func tycTerm(fc *validate.FieldConstraints) (string, *validate.FieldConstraints)
 			&validate.FieldConstraints{Type: &validate.FieldConstraints_Enum{Enum: &validate.EnumRules{DefinedOnly: t.Enum.DefinedOnly, In: t.Enum.In, NotIn: t.Enum.NotIn}}}
 	case *validate.FieldConstraints_Timestamp:
 		return "CTimestamp", &validate.FieldConstraints{Type: &validate.FieldConstraints_Timestamp{Timestamp: &validate.TimestampRules{}}}
+	case *validate.FieldConstraints_Map:
+		mr := t.Map
+		values := "None"
+		r := &validate.MapRules{MinPairs: mr.MinPairs, MaxPairs: mr.MaxPairs}
+		if mr.Values != nil {
+			it, back := tycTerm(mr.Values)
+			if it == "" || back == nil || mr.Values.Required != nil {
+				return "COther", nil
+			}
+			values = "(Some " + it + ")"
+			r.Values = back
+		}
+		return fmt.Sprintf("(CMap %s %s %s)", coqOptU64(mr.MinPairs), coqOptU64(mr.MaxPairs), values),
+			&validate.FieldConstraints{Type: &validate.FieldConstraints_Map{Map: r}}
 	case *validate.FieldConstraints_Repeated:
 		rr := t.Repeated
 		items := "None"
@@ -525,8 +539,10 @@ type Value struct {
 type FValue struct {
 	Absent bool
 	Many   bool
+	IsMap  bool // List holds the values, Keys the (pairwise different) keys
 	One    Value
 	List   []Value
+	Keys   []string
 }
 
 func (v Value) Coq() string {
@@ -553,6 +569,13 @@ func (v Value) Coq() string {
 func (f FValue) Coq() string {
 	if f.Absent {
 		return "FAbsent"
+	}
+	if f.IsMap {
+		parts := make([]string, len(f.List))
+		for i, v := range f.List {
+			parts[i] = "(" + vh.BytesTerm(f.Keys[i]) + ", " + v.Coq() + ")"
+		}
+		return "(FMap [" + strings.Join(parts, ";") + "])"
 	}
 	if f.Many {
 		parts := make([]string, len(f.List))
@@ -585,6 +608,13 @@ func (f FValue) String() string {
 			return fmt.Sprintf("enum(%d)", v.I)
 		}
 		return "{}"
+	}
+	if f.IsMap {
+		parts := make([]string, len(f.List))
+		for i, v := range f.List {
+			parts[i] = f.Keys[i] + ":" + show(v)
+		}
+		return "{" + strings.Join(parts, ",") + "}"
 	}
 	if f.Many {
 		parts := make([]string, len(f.List))
@@ -640,6 +670,11 @@ func validateField(val protovalidate.Validator, md protoreflect.MessageDescripto
 	msg := dynamicpb.NewMessage(md)
 	switch {
 	case fv.Absent:
+	case fv.IsMap:
+		m := msg.Mutable(fd).Map()
+		for i, v := range fv.List {
+			m.Set(protoreflect.ValueOfString(fv.Keys[i]).MapKey(), pvalue(fd.MapValue(), v))
+		}
 	case fv.Many:
 		l := msg.Mutable(fd).List()
 		for _, v := range fv.List {
